@@ -83,9 +83,16 @@ func clip(s string, n int) string {
 	return s
 }
 
+// Weaker orders failure classes for the reducer: "unstable" (no fixed point,
+// not monotonically growing) is what a program with a converging and a growing
+// cause shows; the reduction may isolate either.
+func Weaker(from, to string) bool { return from == "unstable" }
+
 // Run is the C09 check.
 func Run(c *core.Ctx) {
 	c.Rule = "programs = every .templ file, formattestdata section and documentation code block found in the repository at run time + the complete adjacency matrix (22 node kinds^2 x 3 separators x 7 parent contexts, and every kind alone with 3x3 lead/trail whitespace) + attribute/expression/file spelling cells + seeded random compositions (depth<=4, random spellings) + token-level mutants of corpus files and cells; a program counts (evaluations) only if parse+generate+gofmt accept it; non-trivial = the formatter changes the text (fmt(x) != x), distinct by program text"
 	c.Assume("`templ fmt` is modelled in-process as parser.ParseString -> TemplateFile.Write (the stdin path of fmtcmd; imports.Process is the identity when no file path is known)")
-	tsrc.NewRunner(c, Check, "formatting is not idempotent").Run()
+	r := tsrc.NewRunner(c, Check, "formatting is not idempotent")
+	r.Weaker = Weaker
+	r.Run()
 }
